@@ -271,7 +271,7 @@ class ModelSparse:
 
 
 class _Factory:
-    """callable standing for the class `sparse.<fmt>_matrix`; isinstance(x, sparse.csr_matrix) keeps working"""
+    """callable standing for the class `sparse.<fmt>_matrix` (constructor use only: isinstance() against it is a TypeError, loudly)"""
 
     def __init__(self, fmt):
         self.fmt = fmt
@@ -290,9 +290,6 @@ class _Factory:
             tr = [(r, c, arg1[r, c]) for r in range(arg1.shape[0]) for c in range(arg1.shape[1]) if not _is_zero_const(arg1[r, c])]
             return ModelSparse(arg1.shape, tr, self.fmt)
         raise AttributeError(f'symx sparse model: {self.fmt}_matrix constructor form {type(arg1).__name__} is not modelled')
-
-    def __instancecheck__(self, x):  # pragma: no cover - isinstance on an instance attribute is not consulted
-        return isinstance(x, ModelSparse) and x.format == self.fmt
 
 
 class SparseModule:
@@ -327,11 +324,6 @@ def install_sparse(module_names):
             m.__dict__['sparse'] = SPARSE
             done.append(f'{mn}.sparse(scipy.sparse modelled for symbolic entries: symx/sparse_model.py)')
     return done
-
-
-def dense(m):
-    """dense 2-d array of a real scipy sparse matrix or of a ModelSparse"""
-    return m.toarray()
 
 
 def self_test():
